@@ -495,7 +495,16 @@ func runC46(r *simkit.R) {
 	cfg := drawShCfg(r, 2)
 	nobj := 2 + r.Intn(8)
 	w := newShWorld(r, cfg, nobj)
-	w.layoutSimple(nobj, 0, 0, func() int { return []int{0, 5, 300, 1200, 2900, 6000}[r.Intn(6)] })
+	// (in a few runs some records are longer than 1 MiB, growing along the dump: readers that work
+	// piecewise or re-use buffers meet them)
+	big := r.Bool(4)
+	w.layoutSimple(nobj, 0, 0, func() int {
+		if big && r.Bool(40) {
+			r.Probe("object larger than 1 MiB")
+			return 1<<20 + 1 + r.Intn(400000)
+		}
+		return []int{0, 5, 300, 1200, 2900, 6000}[r.Intn(6)]
+	})
 	for id := range w.u.IDs {
 		w.u.Specs[id].Exp = -1
 	}
